@@ -1,9 +1,9 @@
-(** C16 - timestamps keep the instant and calendar fields they were given (partial: the
-    RFC 3339 text round trip is evaluated by the correspondence run, with an independent calendar
-    computation in the harness; it is not a theorem). *)
+(** C16 - timestamps keep the instant and calendar fields they were given.  The text round
+    trip is proved for the model's rendering / parser of RFC 3339 (validated against chrono by the
+    correspondence run, with an independent calendar computation in the harness). *)
 From Coq Require Import String Ascii.
 From Cel.Model Require Import Builtins.
-From Cel.Proofs Require Import TimestampProofs.
+From Cel.Proofs Require Import TimestampProofs TimestampRoundtrip.
 Open Scope Z_scope.
 
 (** The calendar conversions invert each other for every day number and every valid
@@ -63,7 +63,19 @@ Example C16_ex_text : rfc3339 0 0 = $"1970-01-01T00:00:00+00:00"
                       /\ parse_rfc3339 $"1970-01-01T01:00:00+01:00" = Some (Some (0, 3600)).
 Proof. split; reflexivity. Qed.
 
+(** timestamp(string(t)) == t, offset included: for every instant whose local year is 0000-9999
+    and every whole-minute offset within a day (what RFC 3339 can write). *)
+Theorem C16_text_roundtrip : forall ns off,
+  0 <= f_year (local_fields ns off) <= 9999 -> off mod 60 = 0 -> -86400 < off < 86400 ->
+  parse_rfc3339 (rfc3339 ns off) = Some (Some (ns, off)) /\
+  (let! s := b_string (VTs ns off) in run_builtin FTimestamp [s]) = Ok (VTs ns off).
+Proof.
+  intros ns off Hy Hm Hr. pose proof (rfc3339_roundtrip ns off Hy Hm Hr) as H. split; [exact H|].
+  cbn [b_string obind run_builtin]. now rewrite H.
+Qed.
+
 Print Assumptions C16_civil_roundtrip.
+Print Assumptions C16_text_roundtrip.
 Print Assumptions C16_fields.
 Print Assumptions C16_accessors.
 Print Assumptions C16_order_by_instant.
